@@ -5,6 +5,7 @@ use vf_engine::Check;
 
 mod c08;
 mod c09;
+mod c20;
 mod ev;
 mod refauth;
 
@@ -44,6 +45,7 @@ fn main() {
     match id.as_str() {
         "C08" => c08::run(&mut ck),
         "C09" => c09::run(&mut ck),
+        "C20" => c20::run(&mut ck),
         _ => {
             eprintln!("vf-stateres: unknown property {id}");
             std::process::exit(2);
